@@ -303,6 +303,14 @@ def check_sub_border(ctx, m, mask, br, ssz, starts, pos, image_grid, geometry):
     bs_set = set(int(b) for b in np.asarray(bs).ravel())
     ctx.check(must_b <= bs_set and not (bs_set & never_b), "sub_border.pixels_are_the_border", mask=m, missing=sorted(must_b - bs_set),
               not_border=sorted(bs_set & never_b), border_slim=bs)
+    # ... and against the edge set the mask itself publishes: the border pixels are exactly its edge pixels with a clear axis walk
+    # (this pins the frame pixels the definition leaves open to whatever the mask's own edge set says)
+    oke, es = ctx.guarded("sub_border.no_exception", lambda: np.asarray(mask.derive_indexes.edge_slim))
+    if oke:
+        walk_slim = set(slim_of[(~m) & walk].tolist())
+        exp_b = set(int(e) for e in es.ravel()) & walk_slim
+        ctx.check(bs_set == exp_b, "sub_border.pixels_are_the_border", mask=m, how="published edge pixels with a clear axis walk",
+                  extra=sorted(bs_set - exp_b), missing=sorted(exp_b - bs_set), border_slim=bs)
     okc = (sbs.ndim == 1 and len(sbs) == len(bs) and np.issubdtype(sbs.dtype, np.integer))
     ctx.check(okc, "sub_border.count", mask=m, sub_sizes=ssz, border_slim=bs, got=sbs)
     if not okc or not lay:
